@@ -58,7 +58,7 @@ def main():
     if args and args[0] == "-j":
         j = int(args[1])
         args = args[2:]
-    names = args or sorted(n for n in os.listdir(S) if os.path.isdir(os.path.join(S, n)))
+    names = args or sorted(n for n in os.listdir(S) if os.path.exists(os.path.join(S, n, "meta.json")))
     with ThreadPoolExecutor(max_workers=j) as ex:
         for name, res in ex.map(run_one, names):
             caught = [c for c, r in res.items() if isinstance(r, dict) and r.get("violation")]
